@@ -43,6 +43,10 @@ CLAIMED["C20"] = ("Partial deductive proof: SleepContext's decision logic (nil a
          "Trusted: gvc, assumed contracts of time.NewTimer/AfterFunc/Until, context, math/rand, sync.Mutex; wall-clock behaviour of timers. Not covered: the callback body's generation check is argued on paper from Stop's proved postcondition; Stop/Reset racing a firing timer; tick spacing as observed on the channel.",
          "4.14", CLAIMED["C06"][3])
 
+CLAIMED["C03"] = ("Partial deductive proof of the structural part: a ghost node set, ghost heights and ghost child indices carry the invariant `structOK` (every non-root node holds 7..15 keys, the root 0..15; all leaves at ghost height 0 and every child one level below its parent, i.e. balanced; parent/child links mutually consistent; slots at and beyond n hold zero values / nil children); newBtree establishes it and Put (insertIntoLeaf, overfill with its five loops, amalgam view) and Delete (removeRightmost, steal, rotateLeft/Right, merge/mergeTwo cascade, root collapse) re-establish it for every tree and key, by inductive loop invariants and mutually recursive contracts; searchNode makes at most n <= 15 comparisons and Get/Contains call it once per level (ghost counters).",
+         "Trusted: gvc, SMT solvers. Assumed: compare is a pure total function. Not covered (evidence not_covered_clauses): the closed-form depth bound 1+floor(log8((n+1)/2)) (it follows on paper from the proved occupancy and balance; the count of keys per level is not mechanised), Len == number of stored keys (t.size is not linked to a ghost count of keys), 'exactly one search path' (needs the ordering invariant of C01, not proved).",
+         "4.3", CLAIMED["C06"][3])
+
 NOT_APPLICABLE = {
  "C10": "stream.Pipe: every clause is quantified over goroutine interleavings and the runtime's choice among ready select arms; a sequential contract verifier has no model of several goroutines sharing channels (DESIGN.md section 6).",
  "C11": "stream.Batch: three goroutines, a timer and an unbuffered hand-over; partition, max-wait and 'Close always returns' are schedule and liveness statements, not expressible as per-call contracts (DESIGN.md section 6).",
